@@ -25,11 +25,57 @@ type boxRole struct {
 	axis  int64
 }
 
+// onceDefs: locals assigned exactly once in the function, with their defining expression
+// (so that `x, y := point[0], point[1]` lets x stand for point[0]).
+func onceDefs(pkg *packages.Package, fd *ast.FuncDecl) map[types.Object]ast.Expr {
+	count := map[types.Object]int{}
+	def := map[types.Object]ast.Expr{}
+	ast.Inspect(fd.Body, func(n ast.Node) bool {
+		switch s := n.(type) {
+		case *ast.AssignStmt:
+			for i, l := range s.Lhs {
+				id, ok := l.(*ast.Ident)
+				if !ok {
+					continue
+				}
+				obj := pkg.TypesInfo.Defs[id]
+				if obj == nil {
+					obj = pkg.TypesInfo.Uses[id]
+				}
+				if obj == nil {
+					continue
+				}
+				count[obj]++
+				if len(s.Lhs) == len(s.Rhs) {
+					def[obj] = s.Rhs[i]
+				}
+			}
+		case *ast.IncDecStmt:
+			if id, ok := s.X.(*ast.Ident); ok {
+				count[pkg.TypesInfo.Uses[id]] += 2
+			}
+		}
+		return true
+	})
+	out := map[types.Object]ast.Expr{}
+	for o, n := range count {
+		if n == 1 && def[o] != nil {
+			out[o] = def[o]
+		}
+	}
+	return out
+}
+
+var roleDefs map[types.Object]ast.Expr // set by the caller for the function being read
+
 func roleOf(pkg *packages.Package, e ast.Expr, named map[types.Object]boxRole) (boxRole, bool) {
 	e = ast.Unparen(e)
 	if id, ok := e.(*ast.Ident); ok {
 		if r, ok := named[pkg.TypesInfo.Uses[id]]; ok {
 			return r, true
+		}
+		if d, ok := roleDefs[pkg.TypesInfo.Uses[id]]; ok {
+			return roleOf(pkg, d, named)
 		}
 		return boxRole{}, false
 	}
@@ -129,6 +175,7 @@ func ruleBoxPredicates(specs []boxSpec) ruleFunc {
 			}
 			var atoms []string
 			bad := ""
+			roleDefs = onceDefs(pk, fd)
 			ast.Inspect(fd.Body, func(n ast.Node) bool {
 				be, ok := n.(*ast.BinaryExpr)
 				if !ok {
